@@ -251,8 +251,7 @@ func runForm(c *C06Form) (sig, detail string) {
 	cause := "unexplained"
 	if want {
 		switch {
-		case c.Enc == "urlencoded" && has("declared-property-absent"):
-			cause = "declared-property-absent" // stored as null, then "Value is not nullable"
+		// (a declared property that the form does not carry used to be stored as null - repaired in /repo, no longer a cause)
 		case c.Enc == "urlencoded" && has("empty-text-present"):
 			cause = "empty-text-present" // an empty text decodes to nil (a whole array becomes nil): the C05 finding on empty elements
 		case c.Enc == "multipart" && has("undeclared-field"):
